@@ -76,7 +76,40 @@ Proof.
   destruct (H c Hin); [congruence|tauto].
 Qed.
 
+(* ---------- more on split_on / intercalate ---------- *)
+Lemma intercalate_split sep (l : list Z) : intercalate [sep] (split_on sep l) = l.
+Proof.
+  induction l as [|x l IH]; [reflexivity|].
+  cbn [split_on]. destruct (Z.eqb_spec x sep) as [->|Hne].
+  - pose proof (split_on_nonempty sep l) as Hn. destruct (split_on sep l) as [|h t] eqn:E; [congruence|].
+    rewrite intercalate_cons2, IH. reflexivity.
+  - pose proof (split_on_nonempty sep l) as Hn. destruct (split_on sep l) as [|h t] eqn:E; [congruence|].
+    destruct t as [|h' t].
+    + cbn [intercalate] in *. rewrite IH. reflexivity.
+    + rewrite intercalate_cons2. rewrite intercalate_cons2 in IH. rewrite <- IH. reflexivity.
+Qed.
+(* the last piece may itself contain separators (the SAM tags column) *)
+Lemma split_intercalate_last sep (ts : list (list Z)) (e : list Z) : Forall (fun t => ~ In sep t) ts ->
+  split_on sep (intercalate [sep] (ts ++ [e])) = ts ++ split_on sep e.
+Proof.
+  induction 1 as [|t ts Ht _ IH]; [reflexivity|].
+  cbn [app]. destruct (ts ++ [e]) as [|y r] eqn:E; [destruct ts; discriminate|].
+  rewrite intercalate_cons2. cbn [app]. rewrite split_on_app by exact Ht. rewrite IH. reflexivity.
+Qed.
+Lemma not_in_intercalate c sep (ts : list (list Z)) : c <> sep -> Forall (fun t => ~ In c t) ts ->
+  ~ In c (intercalate [sep] ts).
+Proof.
+  intros Hc. induction 1 as [|t ts Ht _ IH]; [cbn; tauto|].
+  destruct ts as [|y r]; [exact Ht|]. rewrite intercalate_cons2. intros Hin.
+  apply in_app_or in Hin. destruct Hin as [Hin|Hin]; [exact (Ht Hin)|].
+  cbn [app] in Hin. destruct Hin as [Hin|Hin]; [congruence|exact (IH Hin)].
+Qed.
+
 (* ---------- cells ---------- *)
+Section Read.
+(* how the text of a float cell is read back as an exact rational: a parameter *)
+Variable pf : list Z -> option (Z * Z).
+
 (* a cell that the reference reader returns unchanged under column kind k *)
 Definition cell_ok (k : Z) (f : fld) : Prop :=
   match f with
@@ -84,7 +117,7 @@ Definition cell_ok (k : Z) (f : fld) : Prop :=
   | FI _ => k = 1
   | FL _ => k = 2
   | FQ q => k = 4 /\ Forall (fun x => 0 <= x) q
-  | FF _ _ _ => False
+  | FF t n d => k = 3 /\ pf t = Some (n, d) /\ ~ In 9 t /\ ~ In 10 t
   end.
 
 Lemma all_some_map_parse l : all_some (map parse_int (map dec l)) = Some l.
@@ -98,25 +131,22 @@ Proof.
   destruct f as [s|n|l|q|t a b]; cbn [cell_ok print_fld]; intros H.
   - tauto.
   - split; apply dec_no; lia.
-  - assert (Hc : forall c, c <> 44 -> c <> 45 -> ~ (48 <= c <= 57) -> ~ In c (intercalate [44] (map dec l))).
-    { intros c H1 H2 H3. induction l as [|x l IH]; [cbn; tauto|].
-      destruct l as [|y l].
-      - cbn [map intercalate]. apply dec_no; assumption.
-      - cbn [map]. rewrite intercalate_cons2. cbn [map] in IH. intros Hin.
-        apply in_app_or in Hin. destruct Hin as [Hin|Hin]; [revert Hin; apply dec_no; assumption|].
-        cbn [app] in Hin. destruct Hin as [Hin|Hin]; [congruence|]. exact (IH Hin). }
-    split; apply Hc; lia.
+  - split; apply not_in_intercalate; try lia; apply Forall_forall; intros t Ht;
+      apply in_map_iff in Ht; destruct Ht as [x [<- _]]; apply dec_no; lia.
   - destruct H as [_ Hq]. split; intros Hin; apply in_map_iff in Hin; destruct Hin as [x [Hx Hin]];
       rewrite Forall_forall in Hq; specialize (Hq x Hin); lia.
-  - contradiction.
+  - tauto.
 Qed.
 
-Lemma parse_print k f : cell_ok k f -> parse_fld k (print_fld f) = Some f.
+Lemma cell_kind_not_rest k f : cell_ok k f -> (k =? 5) = false.
+Proof. intros H. apply Z.eqb_neq. destruct f; cbn in H; lia. Qed.
+
+Lemma parse_print k f : cell_ok k f -> parse_fld_with pf k (print_fld f) = Some f.
 Proof.
   destruct f as [s|n|l|q|t a b]; cbn [cell_ok print_fld]; intros H.
   - destruct H as [[->| ->] _]; reflexivity.
-  - subst k. unfold parse_fld. cbn [Z.eqb Pos.eqb]. rewrite parse_int_dec. reflexivity.
-  - subst k. unfold parse_fld. cbn [Z.eqb Pos.eqb].
+  - subst k. unfold parse_fld_with. cbn [Z.eqb Pos.eqb]. rewrite parse_int_dec. reflexivity.
+  - subst k. unfold parse_fld_with. cbn [Z.eqb Pos.eqb].
     destruct l as [|x l]; [reflexivity|].
     assert (Hne : intercalate [44] (map dec (x :: l)) <> []).
     { cbn [map]. destruct (map dec l); [cbn [intercalate]; apply dec_nonempty|].
@@ -127,57 +157,219 @@ Proof.
     + discriminate.
     + apply Forall_forall. intros t Ht. apply in_map_iff in Ht. destruct Ht as [y [<- _]].
       apply dec_no; lia.
-  - destruct H as [-> _]. unfold parse_fld. cbn [Z.eqb Pos.eqb]. rewrite map_map.
+  - destruct H as [-> _]. unfold parse_fld_with. cbn [Z.eqb Pos.eqb]. rewrite map_map.
     rewrite (map_ext (fun x => x + 33 - 33) (fun x => x)) by (intros; lia). rewrite map_id. reflexivity.
-  - contradiction.
+  - destruct H as [-> [Hp _]]. unfold parse_fld_with. cbn [Z.eqb Pos.eqb]. rewrite Hp. reflexivity.
 Qed.
 
 Lemma parse_fields_print : forall (schema : list Z) (r : row),
-  Forall2 cell_ok schema r -> parse_fields schema (map print_fld r) = Some r.
+  Forall2 cell_ok schema r -> parse_fields_with pf schema (map print_fld r) = Some r.
 Proof.
   induction 1 as [|k f ks r Hkf _ IH]; [reflexivity|].
-  cbn [map parse_fields].
-  assert (Hk5 : (k =? 5) = false).
-  { apply Z.eqb_neq. destruct f; cbn in Hkf; lia. }
-  rewrite Hk5. cbn [andb]. rewrite (parse_print k f Hkf), IH. reflexivity.
+  cbn [map parse_fields_with]. rewrite (cell_kind_not_rest k f Hkf). cbn [andb].
+  rewrite (parse_print k f Hkf), IH. reflexivity.
+Qed.
+(* rest-of-line column: the remaining pieces are glued back with TABs *)
+Lemma parse_fields_rest : forall (ks : list Z) (fs : row) (pieces : list (list Z)),
+  Forall2 cell_ok ks fs -> pieces <> [] ->
+  parse_fields_with pf (ks ++ [5]) (map print_fld fs ++ pieces) = Some (fs ++ [FS (intercalate [9] pieces)]).
+Proof.
+  induction 1 as [|k f ks r Hkf _ IH]; intros Hp.
+  - cbn [app map parse_fields_with]. destruct pieces; [congruence|]. reflexivity.
+  - cbn [app map parse_fields_with]. rewrite (cell_kind_not_rest k f Hkf). cbn [andb].
+    rewrite (parse_print k f Hkf), (IH Hp). reflexivity.
+Qed.
+(* ... and a line that stops before that column has an empty one *)
+Lemma parse_fields_missing_rest : forall (ks : list Z) (fs : row),
+  Forall2 cell_ok ks fs ->
+  parse_fields_with pf (ks ++ [5]) (map print_fld fs) = Some (fs ++ [FS []]).
+Proof.
+  induction 1 as [|k f ks r Hkf _ IH]; [reflexivity|].
+  cbn [app map parse_fields_with]. rewrite (cell_kind_not_rest k f Hkf). cbn [andb].
+  rewrite (parse_print k f Hkf), IH. reflexivity.
+Qed.
+
+(* a row the reader returns unchanged: typed cells, optionally followed by a rest-of-line text cell *)
+Definition row_ok (schema : list Z) (r : row) : Prop :=
+  (schema <> [] /\ Forall2 cell_ok schema r)
+  \/ (exists ks fs e, schema = ks ++ [5] /\ r = fs ++ [FS e] /\ Forall2 cell_ok ks fs /\ ~ In 10 e).
+
+Definition line_of (r : row) : list Z := intercalate [9] (map print_fld r).
+
+Lemma Forall2_cells_no c (Hc : c = 9 \/ c = 10) ks fs :
+  Forall2 cell_ok ks fs -> Forall (fun t => ~ In c t) (map print_fld fs).
+Proof.
+  induction 1 as [|k f ks r Hkf _ IH]; [constructor|].
+  cbn [map]. constructor; [|exact IH].
+  destruct Hc as [-> | ->]; apply (print_no_sep k f Hkf).
+Qed.
+
+Lemma line_no_newline schema r : row_ok schema r -> ~ In 10 (line_of r).
+Proof.
+  unfold line_of. intros [[_ H]|[ks [fs [e [-> [-> [H He]]]]]]].
+  - apply not_in_intercalate; [lia|]. apply (Forall2_cells_no 10 (or_intror eq_refl) _ _ H).
+  - apply not_in_intercalate; [lia|]. rewrite map_app. apply Forall_app. split.
+    + apply (Forall2_cells_no 10 (or_intror eq_refl) _ _ H).
+    + constructor; [exact He|constructor].
+Qed.
+
+Theorem parse_line_print schema r : row_ok schema r -> parse_line_with pf schema (line_of r) = Some r.
+Proof.
+  unfold parse_line_with, line_of. intros [[Hs H]|[ks [fs [e [-> [-> [H He]]]]]]].
+  - rewrite split_intercalate.
+    + apply parse_fields_print, H.
+    + destruct H; [congruence|discriminate].
+    + apply (Forall2_cells_no 9 (or_introl eq_refl) _ _ H).
+  - rewrite map_app. cbn [map print_fld]. rewrite split_intercalate_last
+      by apply (Forall2_cells_no 9 (or_introl eq_refl) _ _ H).
+    rewrite parse_fields_rest; [|exact H|apply split_on_nonempty].
+    rewrite intercalate_split. reflexivity.
+Qed.
+
+(* the SAM-standard spelling of "no optional tags" (no trailing TAB, written by the lazy path) reads back as the
+   same row as the 12-column spelling of the eager writer (trailing TAB) *)
+Theorem parse_line_empty_rest_spellings ks fs : ks <> [] -> Forall2 cell_ok ks fs ->
+  parse_line_with pf (ks ++ [5]) (line_of fs) = Some (fs ++ [FS []])
+  /\ parse_line_with pf (ks ++ [5]) (line_of (fs ++ [FS []])) = Some (fs ++ [FS []]).
+Proof.
+  intros Hk H. split.
+  - unfold parse_line_with, line_of. rewrite split_intercalate.
+    + apply parse_fields_missing_rest, H.
+    + destruct H; [congruence|discriminate].
+    + apply (Forall2_cells_no 9 (or_introl eq_refl) _ _ H).
+  - apply parse_line_print. right. exists ks, fs, []. repeat split; auto.
 Qed.
 
 (* ---------- delimited files ---------- *)
-Theorem parse_serialise_delim (schema : list Z) (rows : list row) :
-  schema <> [] -> Forall (Forall2 cell_ok schema) rows ->
-  parse_raw Delim schema (serialise Delim rows) = Some rows.
+Lemma serialise_delim_lines rows : serialise Delim rows = concat (map (fun l => l ++ [10]) (map line_of rows)).
+Proof. unfold serialise. rewrite map_map. reflexivity. Qed.
+
+Lemma parse_lines schema rows : Forall (row_ok schema) rows ->
+  all_some (map (parse_line_with pf schema) (map line_of rows)) = Some rows.
 Proof.
-  intros Hs Hrows. cbn [parse_raw]. unfold serialise. cbn [ser_row].
-  unfold ser_delim.
-  rewrite <- (map_map (fun r => intercalate [9] (map print_fld r)) (fun l => l ++ [10])).
-  rewrite lines_terminated.
-  - rewrite map_map. induction Hrows as [|r rows Hr _ IH]; [reflexivity|].
-    cbn [map all_some]. rewrite IH. unfold parse_line at 1.
-    rewrite split_intercalate.
-    + rewrite (parse_fields_print schema r Hr). reflexivity.
-    + destruct Hr; [congruence|discriminate].
-    + apply Forall_forall. intros t Ht. apply in_map_iff in Ht. destruct Ht as [f [<- Hf]].
-      assert (exists k, cell_ok k f) as [k Hk].
-      { clear -Hr Hf. induction Hr as [|k f' ks r Hkf _ IH]; [contradiction|].
-        destruct Hf as [->|Hf]; [exists k; exact Hkf|apply IH, Hf]. }
-      apply (print_no_sep k f Hk).
-  - apply Forall_forall. intros t Ht. apply in_map_iff in Ht. destruct Ht as [r [<- Hr]].
-    rewrite Forall_forall in Hrows. specialize (Hrows r Hr).
-    clear -Hrows. induction Hrows as [|k f ks r Hkf _ IH]; [cbn; tauto|].
-    destruct r as [|f' r].
-    + cbn [map intercalate]. apply (print_no_sep k f Hkf).
-    + cbn [map]. rewrite intercalate_cons2. cbn [map] in IH. intros Hin.
-      apply in_app_or in Hin. destruct Hin as [Hin|Hin]; [exact (proj2 (print_no_sep k f Hkf) Hin)|].
-      cbn [app] in Hin. destruct Hin as [Hin|Hin]; [discriminate|]. exact (IH Hin).
+  induction 1 as [|r rows Hr _ IH]; [reflexivity|].
+  cbn [map all_some]. rewrite (parse_line_print schema r Hr), IH. reflexivity.
+Qed.
+Lemma lines_no_newline schema rows : Forall (row_ok schema) rows -> Forall (fun l => ~ In 10 l) (map line_of rows).
+Proof.
+  intros H. apply Forall_forall. intros l Hl. apply in_map_iff in Hl. destruct Hl as [r [<- Hr]].
+  rewrite Forall_forall in H. apply (line_no_newline schema r (H r Hr)).
 Qed.
 
-(* the reader as it is additionally needs a non-empty cell in every identifier column *)
+Theorem parse_serialise_delim_rows (schema : list Z) (rows : list row) :
+  Forall (row_ok schema) rows -> parse_raw_with pf Delim schema (serialise Delim rows) = Some rows.
+Proof.
+  intros H. cbn [parse_raw_with]. rewrite serialise_delim_lines, lines_terminated by (apply (lines_no_newline schema), H).
+  apply parse_lines, H.
+Qed.
+
+(* ---------- VCF: '#' header lines are skipped, POS is read back 0-based ---------- *)
+Definition header_of (hls : list (list Z)) : list Z := concat (map (fun l => l ++ [10]) hls).
+Definition header_line_ok (l : list Z) : Prop := is_comment l = true /\ ~ In 10 l.
+Definition vcf_row_ok (schema : list Z) (r : row) : Prop :=
+  schema <> [] /\ Forall2 cell_ok schema r /\ exists c s rest, r = FS (c :: s) :: rest /\ c <> 35.
+
+Lemma vcf_shift_inv r : vcf_shift (-1) (vcf_shift 1 r) = r.
+Proof. destruct r as [|c [|[s|p|l|q|t a b] rest]]; try reflexivity. cbn. do 2 f_equal. f_equal. lia. Qed.
+Lemma vcf_shift_cells schema r d : Forall2 cell_ok schema r -> Forall2 cell_ok schema (vcf_shift d r).
+Proof.
+  intros H. destruct H as [|k c ks r Hc H]; [constructor|].
+  destruct H as [|k' f ks r Hf H]; [repeat constructor; assumption|].
+  destruct f; cbn [vcf_shift]; constructor; try assumption; constructor; assumption.
+Qed.
+Lemma drop_comments_header hls body : Forall header_line_ok hls ->
+  Forall (fun l => is_comment l = false) body -> drop_comments (hls ++ body) = body.
+Proof.
+  induction 1 as [|l hls [Hl _] _ IH]; intros Hb.
+  - destruct Hb as [|b body Hb _]; [reflexivity|]. cbn [app drop_comments]. rewrite Hb. reflexivity.
+  - cbn [app drop_comments]. rewrite Hl. apply IH, Hb.
+Qed.
+
+Theorem parse_serialise_vcf (schema : list Z) (hls : list (list Z)) (rows : list row) :
+  Forall header_line_ok hls -> Forall (vcf_row_ok schema) rows ->
+  parse_raw_with pf Vcf schema (header_of hls ++ serialise Vcf rows) = Some rows.
+Proof.
+  intros Hh Hr. cbn [parse_raw_with].
+  assert (Hshift : Forall (row_ok schema) (map (vcf_shift 1) rows)).
+  { apply Forall_forall. intros r' Hr'. apply in_map_iff in Hr'. destruct Hr' as [r [<- Hin]].
+    rewrite Forall_forall in Hr. destruct (Hr r Hin) as [Hs [Hc _]]. left. split; [exact Hs|].
+    apply vcf_shift_cells, Hc. }
+  assert (E : header_of hls ++ serialise Vcf rows
+              = concat (map (fun l => l ++ [10]) (hls ++ map line_of (map (vcf_shift 1) rows)))).
+  { unfold header_of, serialise. rewrite map_app, concat_app. f_equal. rewrite !map_map. reflexivity. }
+  rewrite E, lines_terminated.
+  - rewrite drop_comments_header.
+    + rewrite (parse_lines schema _ Hshift). cbn [option_map]. f_equal.
+      rewrite map_map. rewrite (map_ext _ (fun r => r)) by apply vcf_shift_inv. apply map_id.
+    + exact Hh.
+    + apply Forall_forall. intros l Hl. apply in_map_iff in Hl. destruct Hl as [r' [<- Hr']].
+      apply in_map_iff in Hr'. destruct Hr' as [r [<- Hin]].
+      rewrite Forall_forall in Hr. destruct (Hr r Hin) as [_ [_ [c [s [rest [-> Hc]]]]]].
+      unfold line_of. destruct rest as [|f rest].
+      * cbn. apply Z.eqb_neq, Hc.
+      * assert (Ex : exists f' rest', vcf_shift 1 (FS (c :: s) :: f :: rest) = FS (c :: s) :: f' :: rest').
+        { destruct f; cbn [vcf_shift]; eauto. }
+        destruct Ex as [f' [rest' ->]]. cbn [map print_fld]. rewrite intercalate_cons2. cbn. apply Z.eqb_neq, Hc.
+  - apply Forall_app. split.
+    + eapply Forall_impl; [|exact Hh]. intros l [_ H]. exact H.
+    + apply (lines_no_newline schema), Hshift.
+Qed.
+End Read.
+
+
+(* ---------- the SAM-standard spelling of a whole file: no TAB before an empty tags cell ---------- *)
+Definition sam_std_line (fs : row) (e : list Z) : list Z :=
+  match e with [] => line_of fs | _ => line_of (fs ++ [FS e]) end.
+Theorem parse_sam_std pf (ks : list Z) (recs : list (row * list Z)) :
+  ks <> [] -> Forall (fun p => Forall2 (cell_ok pf) ks (fst p) /\ ~ In 10 (snd p)) recs ->
+  parse_raw_with pf Delim (ks ++ [5]) (concat (map (fun p => sam_std_line (fst p) (snd p) ++ [10]) recs))
+  = Some (map (fun p => fst p ++ [FS (snd p)]) recs).
+Proof.
+  intros Hk H. cbn [parse_raw_with].
+  rewrite <- (map_map (fun p => sam_std_line (fst p) (snd p)) (fun l => l ++ [10])).
+  rewrite lines_terminated.
+  - rewrite map_map. induction H as [|[fs e] recs [Hc He] _ IH]; [reflexivity|].
+    cbn [map all_some fst snd]. rewrite IH.
+    assert (E : parse_line_with pf (ks ++ [5]) (sam_std_line fs e) = Some (fs ++ [FS e])).
+    { destruct e as [|x e].
+      - apply (parse_line_empty_rest_spellings pf ks fs Hk Hc).
+      - apply parse_line_print. right. exists ks, fs, (x :: e). repeat split; auto. }
+    rewrite E. reflexivity.
+  - apply Forall_forall. intros l Hl. apply in_map_iff in Hl. destruct Hl as [[fs e] [<- Hin]].
+    rewrite Forall_forall in H. destruct (H _ Hin) as [Hc He]. cbn [fst snd] in *.
+    destruct e as [|x e].
+    + apply (line_no_newline pf ks fs). left. split; [exact Hk|exact Hc].
+    + apply (line_no_newline pf (ks ++ [5])). right. exists ks, fs, (x :: e). repeat split; auto.
+Qed.
+
+(* the instance used by the correspondence (float values not recomputed), with the reader's identifier rule *)
 Theorem parse_file_serialise_delim (schema : list Z) (rows : list row) :
-  schema <> [] -> Forall (Forall2 cell_ok schema) rows -> id_cols_ok schema rows = true ->
+  Forall (row_ok no_float_value schema) rows -> id_cols_ok schema rows = true ->
   parse_file Delim schema (serialise Delim rows) = Some rows.
 Proof.
-  intros Hs Hrows Hid. unfold parse_file. rewrite parse_serialise_delim by assumption.
+  intros Hrows Hid. unfold parse_file, parse_raw. rewrite parse_serialise_delim_rows by assumption.
   rewrite Hid, orb_true_r. reflexivity.
+Qed.
+
+(* float tables under an explicit printer: if the reader inverts the printer (round-trip hypothesis) and the
+   printer emits no TAB / LF, a table whose float cells carry the printer's text is read back unchanged *)
+Definition cell_ok_printer (pr : Z -> Z -> list Z) (pf : list Z -> option (Z * Z)) (k : Z) (f : fld) : Prop :=
+  match f with
+  | FF t n d => k = 3 /\ t = pr n d
+  | _ => cell_ok pf k f
+  end.
+Theorem parse_serialise_floats (pr : Z -> Z -> list Z) (pf : list Z -> option (Z * Z)) :
+  (forall n d, pf (pr n d) = Some (n, d)) ->
+  (forall n d, ~ In 9 (pr n d) /\ ~ In 10 (pr n d)) ->
+  forall (schema : list Z) (rows : list row), schema <> [] ->
+    Forall (Forall2 (cell_ok_printer pr pf) schema) rows ->
+    parse_raw_with pf Delim schema (serialise Delim rows) = Some rows.
+Proof.
+  intros Hrt Hsep schema rows Hs Hrows. apply parse_serialise_delim_rows.
+  eapply Forall_impl; [|exact Hrows]. intros r Hr. left. split; [exact Hs|].
+  clear Hs Hrows. induction Hr as [|k f ks r' Hkf _ IH]; constructor; [|exact IH].
+  destruct f; try exact Hkf.
+  destruct Hkf as [-> ->]. cbn [cell_ok]. split; [reflexivity|]. split; [apply Hrt|apply Hsep].
 Qed.
 
 (* ---------- FASTQ ---------- *)
@@ -205,7 +397,7 @@ Qed.
 Theorem parse_serialise_fastq (schema : list Z) (rows : list row) : Forall fastq_row_ok rows ->
   parse_raw Fastq schema (serialise Fastq rows) = Some rows.
 Proof.
-  intros Hrows. cbn [parse_raw].
+  intros Hrows. unfold parse_raw. cbn [parse_raw_with].
   assert (E : serialise Fastq rows = concat (map (fun l => l ++ [10]) (flat_map fastq_lines rows))).
   { unfold serialise. induction Hrows as [|r rows Hr _ IH]; [reflexivity|].
     destruct Hr as [n [s [q [-> _]]]].
@@ -224,4 +416,120 @@ Proof.
     + intros [H|[]]; discriminate.
     + intros Hin. apply in_map_iff in Hin. destruct Hin as [x [Hx Hin]].
       rewrite Forall_forall in Hq. specialize (Hq x Hin). lia.
+Qed.
+
+(* ---------- FASTA: wrapped sequence lines are concatenated back; empty sequences included ---------- *)
+Lemma wrap_fuel_chunks w : forall f s,
+  wrap_fuel f w s = concat (map (fun l => l ++ [10]) (chunks_of_fuel f w s)).
+Proof.
+  induction f as [|f IH]; intros s; [reflexivity|].
+  cbn [wrap_fuel chunks_of_fuel]. destruct s as [|x s]; [reflexivity|].
+  cbn [map concat]. rewrite IH, <- app_assoc. reflexivity.
+Qed.
+Lemma wrap_chunks w s : wrap w s = concat (map (fun l => l ++ [10]) (chunks_of (Z.to_nat w) s)).
+Proof. apply wrap_fuel_chunks. Qed.
+
+Lemma chunks_fuel_facts w : (1 <= w)%nat -> forall f (s : list Z), (length s <= f)%nat ->
+  concat (chunks_of_fuel f w s) = s
+  /\ Forall (fun c => c <> [] /\ forall x : Z, In x c -> In x s) (chunks_of_fuel f w s).
+Proof.
+  intros Hw. induction f as [|f IH]; intros s Hf.
+  - destruct s; [|cbn in Hf; lia]. split; [reflexivity|constructor].
+  - cbn [chunks_of_fuel]. destruct s as [|x s]; [split; [reflexivity|constructor]|].
+    destruct (IH (skipn w (x :: s))) as [Hc Hall].
+    { rewrite skipn_length. cbn [length] in *. lia. }
+    split.
+    + cbn [concat]. rewrite Hc. apply firstn_skipn.
+    + constructor.
+      * split.
+        -- destruct w; [lia|]. discriminate.
+        -- intros y Hy. rewrite <- (firstn_skipn w (x :: s)). apply in_or_app. left. exact Hy.
+      * eapply Forall_impl; [|exact Hall]. intros c [Hne Hin]. split; [exact Hne|].
+        intros y Hy. rewrite <- (firstn_skipn w (x :: s)). apply in_or_app. right. apply Hin, Hy.
+Qed.
+
+Definition fasta_row_ok (r : row) : Prop :=
+  exists n s, r = [FS n; FS s] /\ ~ In 10 n /\ ~ In 10 s /\ ~ In 62 s.
+Definition fasta_lines (w : Z) (r : row) : list (list Z) :=
+  match r with
+  | [n; s] => (62 :: print_fld n) :: chunks_of (Z.to_nat w) (print_fld s)
+  | _ => []
+  end.
+
+Lemma serialise_fasta_lines w rows : Forall fasta_row_ok rows ->
+  serialise (Fasta w) rows = concat (map (fun l => l ++ [10]) (flat_map (fasta_lines w) rows)).
+Proof.
+  unfold serialise. induction 1 as [|r rows Hr _ IH]; [reflexivity|].
+  destruct Hr as [n [s [-> _]]].
+  cbn [map concat flat_map fasta_lines print_fld ser_row]. rewrite map_app, concat_app, <- IH.
+  cbn [map concat]. rewrite wrap_chunks. repeat (rewrite <- ?app_assoc; cbn [app]). reflexivity.
+Qed.
+
+(* sequence lines accumulate into the open record *)
+Lemma parse_fasta_chunks n : forall chunks acc b rest,
+  Forall (fun c => c <> [] /\ ~ In 62 c) chunks ->
+  parse_fasta (Some (n, acc, b)) (chunks ++ rest)
+  = parse_fasta (Some (n, acc ++ concat chunks, b || nonempty chunks)) rest.
+Proof.
+  induction chunks as [|c chunks IH]; intros acc b rest H.
+  - cbn. rewrite app_nil_r, orb_false_r. reflexivity.
+  - inversion H as [|? ? [Hne H62] H']; subst. cbn [app parse_fasta].
+    destruct c as [|x c]; [congruence|].
+    destruct (Z.eqb_spec x 62) as [->|_]; [exfalso; apply H62; left; reflexivity|].
+    rewrite IH by exact H'. cbn [concat nonempty]. rewrite <- app_assoc, orb_true_r.
+    destruct (nonempty chunks); rewrite ?orb_true_r; reflexivity.
+Qed.
+
+Lemma parse_fasta_rows w : (1 <= w) -> forall rows, Forall fasta_row_ok rows -> forall cur,
+  parse_fasta cur (flat_map (fasta_lines w) rows)
+  = match close_rec cur with Some a => Some (a ++ rows) | None => None end.
+Proof.
+  intros Hw. induction 1 as [|r rows Hr _ IH]; intros cur.
+  - cbn. destruct (close_rec cur); [rewrite app_nil_r|]; reflexivity.
+  - destruct Hr as [n [s [-> [Hn [Hs H62]]]]].
+    cbn [flat_map fasta_lines print_fld app]. cbn [parse_fasta]. rewrite Z.eqb_refl.
+    destruct (chunks_fuel_facts (Z.to_nat w) ltac:(lia) (length s) s (le_n _)) as [Hc Hall].
+    fold (chunks_of (Z.to_nat w) s) in Hc, Hall.
+    rewrite parse_fasta_chunks.
+    + rewrite IH. cbn [app]. rewrite Hc.
+      assert (Hclose : close_rec (Some (n, s, false || nonempty (chunks_of (Z.to_nat w) s))) = Some [[FS n; FS s]]).
+      { destruct (false || nonempty (chunks_of (Z.to_nat w) s)); reflexivity. }
+      rewrite Hclose. destruct (close_rec cur); reflexivity.
+    + eapply Forall_impl; [|exact Hall]. intros c [Hne Hin]. split; [exact Hne|].
+      intros H. apply H62, Hin, H.
+Qed.
+
+Theorem parse_serialise_fasta (w : Z) (schema : list Z) (rows : list row) :
+  1 <= w -> Forall fasta_row_ok rows ->
+  parse_raw (Fasta w) schema (serialise (Fasta w) rows) = Some rows.
+Proof.
+  intros Hw Hrows. unfold parse_raw. cbn [parse_raw_with].
+  rewrite serialise_fasta_lines by exact Hrows. rewrite lines_terminated.
+  - rewrite (parse_fasta_rows w Hw rows Hrows None). reflexivity.
+  - apply Forall_forall. intros l Hl. apply in_flat_map in Hl. destruct Hl as [r [Hr Hl]].
+    rewrite Forall_forall in Hrows. destruct (Hrows r Hr) as [n [s [-> [Hn [Hs _]]]]].
+    cbn [fasta_lines print_fld] in Hl. destruct Hl as [<-|Hl].
+    + intros [H|H]; [discriminate|exact (Hn H)].
+    + destruct (chunks_fuel_facts (Z.to_nat w) ltac:(lia) (length s) s (le_n _)) as [_ Hall].
+      fold (chunks_of (Z.to_nat w) s) in Hall. rewrite Forall_forall in Hall.
+      intros H. apply Hs. apply (proj2 (Hall l Hl)), H.
+Qed.
+
+(* ---------- non-vacuity of the float hypothesis: an exact printer/reader pair ("num/den") ---------- *)
+Definition ratio_print (n d : Z) : list Z := dec n ++ [47] ++ dec d.
+Definition ratio_read (t : list Z) : option (Z * Z) :=
+  match split_on 47 t with
+  | [a; b] => match parse_int a, parse_int b with Some n, Some d => Some (n, d) | _, _ => None end
+  | _ => None
+  end.
+Lemma ratio_roundtrip n d : ratio_read (ratio_print n d) = Some (n, d).
+Proof.
+  unfold ratio_read, ratio_print. cbn [app]. rewrite split_on_app by (apply dec_no; lia).
+  rewrite split_on_nosep by (apply dec_no; lia). rewrite !parse_int_dec. reflexivity.
+Qed.
+Lemma ratio_no_sep n d : ~ In 9 (ratio_print n d) /\ ~ In 10 (ratio_print n d).
+Proof.
+  unfold ratio_print. split; intros H; apply in_app_or in H; destruct H as [H|H];
+    try (revert H; apply dec_no; lia); cbn [app] in H; destruct H as [H|H]; try discriminate;
+    revert H; apply dec_no; lia.
 Qed.
